@@ -51,6 +51,21 @@ def from_conv(e, body, dmap, pmap, depth=0):
         d = hir.callee_display(e) or ""
         if d in _CONV_NOW["names"]:
             return True
+        # arithmetic on positions moved into a local helper: the result derives from conversions if the helper computes it from
+        # its parameters only and every argument does
+        prog = _CONV_NOW.get("prog")
+        hb = hir.local_callee_body(prog, e) if prog is not None else None
+        if hb is not None and hb["_crate"] is body["_crate"] and depth < 10 and hb["k"] in ("fn", "assoc_fn"):
+            hbody = hir.strip(hb["body"])
+            tail = hbody["b"].get("expr") if hbody.get("k") == "BlockExpr" else hbody
+            if tail is not None and not any(True for _ in hir.nodes(hb["body"], "Ret")):
+                r = from_conv(tail, hb, _defs(hb), _params(hb), depth + 5)
+                if r is True or isinstance(r, tuple):
+                    vals = [from_conv(a_, body, dmap, pmap, depth + 1) for a_ in e["args"]]
+                    if vals and all(v is True for v in vals):
+                        return True
+                    if vals and all(v is True or isinstance(v, tuple) for v in vals):
+                        return [v for v in vals if isinstance(v, tuple)][0]
         return False
     if k == "Path" and e["res"].get("k") == "Local":
         i = e["res"]["id"]
@@ -69,7 +84,11 @@ def from_conv(e, body, dmap, pmap, depth=0):
         return True
     if k == "Tup":
         vals = [from_conv(x, body, dmap, pmap, depth + 1) for x in e["es"]]
-        return True if vals and all(v is True for v in vals) else False
+        if vals and all(v is True for v in vals):
+            return True
+        if vals and all(v is True or isinstance(v, tuple) for v in vals):
+            return [v for v in vals if isinstance(v, tuple)][0]
+        return False
     if k == "Binary":
         a = from_conv(e["l"], body, dmap, pmap, depth + 1)
         b = from_conv(e["r"], body, dmap, pmap, depth + 1)
@@ -108,6 +127,7 @@ def rule_pos_conv(prog):
         out.missing("position conversion functions (usize,&str)->Position / (&Position,&str)->usize / (&Range<usize>,&str)->lsp Range")
         return out
     _CONV_NOW["names"] = (cv["as_position"]["d"], cv["as_pos_range"]["d"])
+    _CONV_NOW["prog"] = prog
     conv_ds = set(v["d"] for v in cv.values())
     bodies = [b for b in c.bodies if "/tests" not in c.file_of(b["sp"]) and "_serde" not in b["d"] and b["k"] in ("fn", "assoc_fn")]
     by_disp = {}
